@@ -283,6 +283,44 @@ func (maybeSelf someDef[T]) ToFloat32() (float32, error) {
 	}
 }
 
+// conversionOverflows reports the sources that the per-type cases of the integer conversions would
+// otherwise wrap silently: negative integers for an unsigned target, and floats (including NaN and
+// the infinities) whose rounded value lies outside [lo, hiExclusive) (both exact floats).
+func conversionOverflows(ref interface{}, unsigned bool, lo float64, hiExclusive float64) bool {
+	switch v := ref.(type) {
+	case int:
+		return unsigned && v < 0
+	case int8:
+		return unsigned && v < 0
+	case int16:
+		return unsigned && v < 0
+	case int32:
+		return unsigned && v < 0
+	case int64:
+		return unsigned && v < 0
+	case float32:
+		r := math.Round(float64(v))
+		return !(r >= lo && r < hiExclusive)
+	case float64:
+		r := math.Round(v)
+		return !(r >= lo && r < hiExclusive)
+	}
+	return false
+}
+
+// parseUnsignedString parses a decimal string for an unsigned target (an explicit "+" sign is
+// accepted, as strconv.ParseInt does; a negative number is an error instead of wrapping)
+func parseUnsignedString(s string, bitSize int) (uint64, error) {
+	if len(s) > 1 && (s[0] == '+' || s[0] == '-') {
+		parseUint, err := strconv.ParseUint(s[1:], 10, bitSize)
+		if err == nil && s[0] == '-' && parseUint != 0 {
+			return 0, ErrConversionSizeOverflow
+		}
+		return parseUint, err
+	}
+	return strconv.ParseUint(s, 10, bitSize)
+}
+
 // ToInt Maybe to Int
 func (maybeSelf someDef[T]) ToInt() (int, error) {
 	if maybeSelf.IsNil() {
@@ -559,6 +597,9 @@ func (maybeSelf someDef[T]) ToInt32() (int32, error) {
 	}
 
 	var ref interface{} = maybeSelf.ref
+	if conversionOverflows(ref, false, math.MinInt32, 1 << 31) {
+		return 0, ErrConversionSizeOverflow
+	}
 	switch (ref).(type) {
 	default:
 		return int32(0), ErrConversionUnsupported
@@ -640,6 +681,9 @@ func (maybeSelf someDef[T]) ToInt64() (int64, error) {
 	}
 
 	var ref interface{} = maybeSelf.ref
+	if conversionOverflows(ref, false, math.MinInt64, 1 << 63) {
+		return 0, ErrConversionSizeOverflow
+	}
 	switch (ref).(type) {
 	default:
 		return int64(0), ErrConversionUnsupported
@@ -714,12 +758,15 @@ func (maybeSelf someDef[T]) ToByte() (byte, error) {
 	}
 
 	var ref interface{} = maybeSelf.ref
+	if conversionOverflows(ref, true, 0, 1 << 8) {
+		return 0, ErrConversionSizeOverflow
+	}
 	switch (ref).(type) {
 	default:
 		return uint8(0), ErrConversionUnsupported
 	case string:
-		parseInt, err := strconv.ParseInt((ref).(string), 10, 8)
-		return uint8(parseInt), err
+		parseUint, err := parseUnsignedString((ref).(string), 8)
+		return uint8(parseUint), err
 	case bool:
 		val, err := maybeSelf.ToBool()
 		if val {
@@ -807,12 +854,15 @@ func (maybeSelf someDef[T]) ToUint() (uint, error) {
 	}
 
 	var ref interface{} = maybeSelf.ref
+	if conversionOverflows(ref, true, 0, 1 << 32) {
+		return 0, ErrConversionSizeOverflow
+	}
 	switch (ref).(type) {
 	default:
 		return 0, ErrConversionUnsupported
 	case string:
-		parseInt, err := strconv.ParseInt((ref).(string), 10, 32)
-		return uint(parseInt), err
+		parseUint, err := parseUnsignedString((ref).(string), 32)
+		return uint(parseUint), err
 	case bool:
 		val, err := maybeSelf.ToBool()
 		if val {
@@ -890,12 +940,15 @@ func (maybeSelf someDef[T]) ToUint16() (uint16, error) {
 	}
 
 	var ref interface{} = maybeSelf.ref
+	if conversionOverflows(ref, true, 0, 1 << 16) {
+		return 0, ErrConversionSizeOverflow
+	}
 	switch (ref).(type) {
 	default:
 		return uint16(0), ErrConversionUnsupported
 	case string:
-		parseInt, err := strconv.ParseInt((ref).(string), 10, 16)
-		return uint16(parseInt), err
+		parseUint, err := parseUnsignedString((ref).(string), 16)
+		return uint16(parseUint), err
 	case bool:
 		val, err := maybeSelf.ToBool()
 		if val {
@@ -977,12 +1030,15 @@ func (maybeSelf someDef[T]) ToUint32() (uint32, error) {
 	}
 
 	var ref interface{} = maybeSelf.ref
+	if conversionOverflows(ref, true, 0, 1 << 32) {
+		return 0, ErrConversionSizeOverflow
+	}
 	switch (ref).(type) {
 	default:
 		return uint32(0), ErrConversionUnsupported
 	case string:
-		parseInt, err := strconv.ParseInt((ref).(string), 10, 32)
-		return uint32(parseInt), err
+		parseUint, err := parseUnsignedString((ref).(string), 32)
+		return uint32(parseUint), err
 	case bool:
 		val, err := maybeSelf.ToBool()
 		if val {
@@ -1055,12 +1111,15 @@ func (maybeSelf someDef[T]) ToUint64() (uint64, error) {
 	}
 
 	var ref interface{} = maybeSelf.ref
+	if conversionOverflows(ref, true, 0, 1 << 64) {
+		return 0, ErrConversionSizeOverflow
+	}
 	switch (ref).(type) {
 	default:
 		return uint64(0), ErrConversionUnsupported
 	case string:
-		parseInt, err := strconv.ParseInt((ref).(string), 10, 64)
-		return uint64(parseInt), err
+		parseUint, err := parseUnsignedString((ref).(string), 64)
+		return uint64(parseUint), err
 	case bool:
 		val, err := maybeSelf.ToBool()
 		if val {
@@ -1126,13 +1185,16 @@ func (maybeSelf someDef[T]) ToUintptr() (uintptr, error) {
 	maxUintptr := uint64(^uintptr(0))
 
 	var ref interface{} = maybeSelf.ref
+	if conversionOverflows(ref, true, 0, 1 << 64) {
+		return 0, ErrConversionSizeOverflow
+	}
 	switch (ref).(type) {
 	default:
 		return uintptr(0), ErrConversionUnsupported
 	case string:
-		parseInt, err := strconv.ParseInt((ref).(string), 10, 64)
-		if uint64(parseInt) <= maxUintptr {
-			return uintptr(parseInt), err
+		parseUint, err := parseUnsignedString((ref).(string), 64)
+		if parseUint <= maxUintptr {
+			return uintptr(parseUint), err
 		}
 		return uintptr(0), ErrConversionSizeOverflow
 	case bool:
